@@ -54,7 +54,7 @@ func TestC22(t *testing.T) {
 		maxOff, maxLen = 6, 7
 	}
 	qMax := maxOff + maxLen + 2
-	rep.Rule = fmt.Sprintf("BFS over histories of trackWrite(off in 0..%d, len in 0..%d) on the real TFile, de-duplicated on (marker dump, model bitmap) to the fixed point; in every state getRangeToRead(o,l) for all o in 0..%d, l in 1..%d is compared with the bitmap; plus the same search to the fixed point over writes [b_i,b_j) between 12 boundaries straddling the byte boundaries of the 8-byte marker keys (256, 512, 65536, 2^32, 2^40), queried at, below and inside every segment; distinct = distinct (markers,bitmap) states", maxOff, maxLen, qMax, qMax)
+	rep.Rule = fmt.Sprintf("BFS over histories of trackWrite(off in 0..%d, len in 0..%d) on the real TFile, de-duplicated on (marker dump, model bitmap) to the fixed point; in every state getRangeToRead(o,l) for all o in 0..%d, l in 1..%d is compared with the bitmap; plus the same search to the fixed point over writes [b_i,b_j) between 14 boundaries straddling the byte boundaries of the 8-byte marker keys (256, 512, 65536, 2^32, 2^40) and beyond the exact range of float64 (2^53+3, 2^62+1), queried at, below and inside every segment; distinct = distinct (markers,bitmap) states", maxOff, maxLen, qMax, qMax)
 	var alphabet []c22op
 	// zero-length writes cover no offset; they are part of the alphabet but violations that need one are labelled
 	for l := int64(0); l <= maxLen; l++ {
@@ -124,7 +124,7 @@ func TestC22(t *testing.T) {
 // bitmap over the segments between consecutive boundaries; queries start at every boundary, one below it and inside
 // every segment, with lengths reaching every later boundary.
 func c22wide(rep *lib.Report) {
-	B := []int64{0, 200, 256, 300, 511, 512, 600, 65536, 70000, 1 << 32, 1<<32 + 7, 1 << 40}
+	B := []int64{0, 200, 256, 300, 511, 512, 600, 65536, 70000, 1 << 32, 1<<32 + 7, 1 << 40, 1<<53 + 3, 1<<62 + 1} // the last two are not exact in float64
 	nseg := len(B) - 1
 	segOf := func(o int64) int {
 		for i := nseg - 1; i >= 0; i-- {
